@@ -411,3 +411,167 @@ def _fn_type(name, t, nparams):
     if name in ("length", "instr"):
         return "Integer"
     return t
+
+
+# ---- aggregations (C03) -----------------------------------------------------------
+def aggregate(op, values):
+    """VTL aggregate of a list of values (nulls ignored).  Exact rationals; sqrt at the end."""
+    vals = [v for v in values if v is not None]
+    if op == "count":
+        return len(vals)
+    if not vals:
+        return None
+    if op == "sum":
+        return sum(vals)
+    if op == "avg":
+        return Fraction(sum(Fraction(v) for v in vals)) / len(vals)
+    if op == "min":
+        return min(vals)
+    if op == "max":
+        return max(vals)
+    if op == "median":
+        s = sorted(Fraction(v) for v in vals)
+        n = len(s)
+        return s[n // 2] if n % 2 else (s[n // 2 - 1] + s[n // 2]) / 2
+    n = len(vals)
+    mean = Fraction(sum(Fraction(v) for v in vals)) / n
+    ss = sum((Fraction(v) - mean) ** 2 for v in vals)
+    if op in ("var_pop", "stddev_pop"):
+        var = ss / n
+    else:
+        if n < 2:
+            return None
+        var = ss / (n - 1)
+    if op.startswith("var"):
+        return var
+    return Fraction(math.sqrt(float(var)))
+
+
+def agg_type(op, t):
+    if op == "count":
+        return "Integer"
+    if op in ("sum", "min", "max"):
+        return t
+    return "Number"
+
+
+def _having_ok(having, rows):
+    if having is None:
+        return True
+    aggop, comp, cmpop, lit = having
+    v = aggregate(aggop, [r[comp] for r in rows]) if comp is not None else len(rows)
+    return apply_bin(cmpop, v, ev(lit, {})) is True
+
+
+def eval_agg(ir, env):
+    """("agg", op, A, mode, ids, having): mode in by/except/none."""
+    _, op, a, mode, gids, having = ir
+    ca, ra = eval_ds(a, env)
+    ids = ids_of(ca)
+    keep = [i for i in ids if i in gids] if mode == "by" else [i for i in ids if i not in gids] if mode == "except" else []
+    meas = measures_of(ca)
+    out_c = {i: ca[i] for i in keep}
+    if op == "count":
+        out_c["int_var"] = ("M", "Integer")
+    else:
+        for m in meas:
+            out_c[m] = ("M", agg_type(op, ca[m][1]))
+    groups = {}
+    for r in ra:
+        groups.setdefault(tuple(r[i] for i in keep), []).append(r)
+    if not keep and not ra:
+        raise Unsupported("aggregate of an empty dataset without grouping")
+    rows = []
+    for k, rs in groups.items():
+        if not _having_ok(having, rs):
+            continue
+        o = dict(zip(keep, k))
+        if op == "count":
+            o["int_var"] = len(rs)
+        else:
+            for m in meas:
+                o[m] = aggregate(op, [r[m] for r in rs])
+        rows.append(o)
+    return out_c, rows
+
+
+def eval_aggr_clause(ir, env):
+    """("aggrclause", A, [(name, role, op, comp)], mode, ids, having)"""
+    _, a, items, mode, gids, having = ir
+    ca, ra = eval_ds(a, env)
+    ids = ids_of(ca)
+    keep = [i for i in ids if i in gids] if mode == "by" else [i for i in ids if i not in gids]
+    out_c = {i: ca[i] for i in keep}
+    for name, role, op, comp in items:
+        out_c[name] = (role, agg_type(op, ca[comp][1]) if comp else "Integer")
+    if not keep and not ra:
+        raise Unsupported("aggregate of an empty dataset without grouping")
+    groups = {}
+    for r in ra:
+        groups.setdefault(tuple(r[i] for i in keep), []).append(r)
+    rows = []
+    for k, rs in groups.items():
+        if not _having_ok(having, rs):
+            continue
+        o = dict(zip(keep, k))
+        for name, role, op, comp in items:
+            o[name] = aggregate(op, [r[comp] for r in rs]) if comp else len(rs)
+        rows.append(o)
+    return out_c, rows
+
+
+_base_eval_ds = eval_ds
+
+
+def eval_ds(ir, env, scalars=None):  # noqa: F811  (extends the dispatcher above)
+    if ir[0] == "agg":
+        return eval_agg(ir, env)
+    if ir[0] == "aggrclause":
+        return eval_aggr_clause(ir, env)
+    if ir[0] == "setop":
+        return eval_setop(ir, env)
+    if ir[0] == "join":
+        return eval_join(ir, env)
+    if ir[0] == "analytic":
+        return eval_analytic(ir, env)
+    return _base_eval_ds(ir, env, scalars)
+
+
+# ---- set operators (C05) -----------------------------------------------------------
+def eval_setop(ir, env):
+    """("setop", op, [A, B, ...])"""
+    _, op, operands = ir
+    evs = [eval_ds(o, env) for o in operands]
+    comps = evs[0][0]
+    ids = ids_of(comps)
+    keyed = []
+    for c, rows in evs:
+        if list(c) != list(comps) and sorted(c) != sorted(comps):
+            raise Unsupported("set operands with different structures")
+        d = {}
+        for r in rows:
+            d.setdefault(tuple(r[i] for i in ids), r)
+        keyed.append(d)
+    out = {}
+    if op == "union":
+        for d in keyed:
+            for k, r in d.items():
+                out.setdefault(k, r)
+    elif op == "intersect":
+        for k, r in keyed[0].items():
+            if all(k in d for d in keyed[1:]):
+                out[k] = r
+    elif op == "setdiff":
+        for k, r in keyed[0].items():
+            if k not in keyed[1]:
+                out[k] = r
+    elif op == "symdiff":
+        for k, r in keyed[0].items():
+            if k not in keyed[1]:
+                out[k] = r
+        for k, r in keyed[1].items():
+            if k not in keyed[0]:
+                out[k] = r
+    else:
+        raise Unsupported(op)
+    return dict(comps), [dict(r) for r in out.values()]
